@@ -222,8 +222,11 @@ def object_set(tier):
     for d, p in pts:
         objs.append((point_key(d), p, repr(d)))
     # derivative objects over a subset
-    sub = [Add(x, y), Add(y, x), Mul(x, y), NPow(x, 2), NPow(x, 2.0), NPow(x, 3), Log(x), Log(x, math.e), x, C(2), C(2.0)]
-    sample_pts = [{"x": 1, "y": 2}, {"y": 2, "x": 1.0}, {"x": 1}, {"x": 2, "y": 2}]
+    sub = [Add(x, y), Add(y, x), Mul(x, y), NPow(x, 2), NPow(x, 2.0), NPow(x, 3), Log(x), Log(x, math.e), x, C(2), C(2.0),
+           Root(x, 3), Add(Log(x, 2), C(1)), Recip(Mul(x, y)), Div(x, y), Exp(x, 10), Pow(x, y), Mul(Sin(x), Log(y, 10)),
+           Root(Add(x, y), 5)]
+    sample_pts = [{"x": 1, "y": 2}, {"y": 2, "x": 1.0}, {"x": 1}, {"x": 2, "y": 2}, {"x": 3, "y": 7}, {"x": 2, "y": 0.7},
+                  {"x": 0.3, "y": 1.3}, {"x": 3.0, "y": 7.0}, {"x": 2}, {"x": 3}]
     for t in sub:
         k = M.key(t)
         for v in ("x", "y"):
@@ -365,6 +368,38 @@ def c13_terms(chunk):
             st.violation({"term": M.to_json(t), "why": f"printed form {r} builds {M.show(bt)}, not {M.show(t)}"})
         elif not (back == e):
             st.violation({"term": M.to_json(t), "why": f"eval(repr(e)) != e for {r}"})
+        elif r != M.show(A.reify(e)):
+            st.violation({"term": M.to_json(t), "why": f"printed form {r} is not the constructor call {M.show(A.reify(e))}"})
+        # the same must hold for expressions the library hands back after the original has been printed and used:
+        # symbolic derivatives are rebuilt from (copies of) the nodes of the printed original
+        if M.variables(t) and 2 <= M.size(t) <= 6 and (st.c.get("states", 0) % 3 == 0 or M.size(t) <= 3):
+            v = sorted(M.variables(t))[0]
+            for label, thunk in (("Partial(e, v).as_expression()", lambda: Partial(e, v).as_expression()),
+                                 ("Differential(e, compute_early=True).component(v).as_expression()",
+                                  lambda: Differential(e, compute_early=True).component(v).as_expression())):
+                o = A.construct(thunk)
+                st.inc("transitions")
+                if o[0] != "ok":
+                    continue
+                d = o[1]
+                rd = repr(d)
+                try:
+                    want = M.show(A.reify(d))
+                except A.ReifyError:
+                    continue
+                st.inc("derived_forms_checked")
+                if rd != want or str(d) != want:
+                    st.violation({"term": M.to_json(t), "why": f"after printing the original, {label} prints as {rd[:200]} "
+                                                                f"but is the expression {want[:200]}"})
+                    break
+                try:
+                    if not (eval(rd, dict(NAMESPACE)) == d):  # noqa: S307
+                        st.violation({"term": M.to_json(t), "why": f"eval(repr(...)) != the object for {label}: {rd[:200]}"})
+                        break
+                except Exception as ex:  # noqa: BLE001
+                    if type(ex).__name__ not in ("OverflowError", "RecursionError"):
+                        st.violation({"term": M.to_json(t), "why": f"printed form of {label} does not evaluate: {type(ex).__name__}"})
+                        break
         st.sample_repr = None
         st.reprs = getattr(st, "reprs", {})
         st.reprs.setdefault(r, set()).add(M.key(t))
@@ -425,7 +460,8 @@ def run_c13(tier, seed):
                 st.violation({"why": f"eval({r}) is not equal to the point"})
         except Exception as ex:  # noqa: BLE001
             st.violation({"why": f"eval({r}) raised {type(ex).__name__}"})
-    sub = [Add(x, y), Mul(x, y), NPow(x, 2), Root(x, 3), Log(x, 2), Exp(x), x, C(2), Div(x, C(2.5)), Root(Add(x, y), 2)]
+    sub = [Add(x, y), Mul(x, y), NPow(x, 2), Root(x, 3), Log(x, 2), Exp(x), x, C(2), Div(x, C(2.5)), Root(Add(x, y), 2),
+           Add(Log(x, 2), C(1)), Recip(Mul(x, y)), Mul(Log(x, 2), y), Pow(x, y), Root(Mul(x, y), 5), Mul(Sin(x), Log(y, 10))]
     sub += [Add(x, C(c)) for c in CONST_MENU]
     for t in sub:
         e = A.build(t)
@@ -439,11 +475,12 @@ def run_c13(tier, seed):
             cases.append((Differential(A.build(t), compute_early=early), f"Differential({re_})"))
             if len(M.variables(t)) <= 1:
                 cases.append((Derivative(A.build(t), compute_early=early), f"Derivative({re_})"))
-        for d in ({"x": 1, "y": 2}, {"y": 2.5, "x": 3}):
+        for d in ({"x": 1, "y": 2}, {"y": 2.5, "x": 3}, {"x": 2, "y": 3}, {"x": 3.0, "y": 7.0}, {"x": 0.7, "y": 1.3}, {"x": 3, "y": 7}):
             if M.variables(t) <= set(d):
                 pr = repr(Point(**d))
                 cases.append((LocatedDifferential(A.build(t), Point(**d)), f"LocatedDifferential({re_}, {pr})"))
                 cases.append((Differential(A.build(t)).at(Point(**d)), f"LocatedDifferential({re_}, {pr})"))
+                cases.append((Differential(A.build(t), compute_early=True).at(Point(**d)), f"LocatedDifferential({re_}, {pr})"))
         for obj, want in cases:
             st.inc("states")
             st.inc("transitions", 2)
